@@ -16,9 +16,12 @@ def sh(cmd, cwd=None, env=None):
 def main():
     # ids of seeded changes (seeded/<id>, expected: caught) or of behaviour-preserving changes
     # (preserving/<id>, expected: every check of the touched area exits 0); "preserving" = all of them
-    ids = sys.argv[1:] or sorted(os.listdir(os.path.join(VERIF, "seeded")))
+    def stored(kind):
+        d = os.path.join(VERIF, kind)
+        return sorted(x for x in os.listdir(d) if os.path.exists(os.path.join(d, x, "meta.json")))
+    ids = sys.argv[1:] or stored("seeded")
     if ids == ["preserving"]:
-        ids = sorted(os.listdir(os.path.join(VERIF, "preserving")))
+        ids = stored("preserving")
     sh(f"git -C /repo worktree remove --force {WT}")
     for d in (HS, WK, EV):
         shutil.rmtree(d, ignore_errors=True)
